@@ -78,9 +78,9 @@ Print Assumptions C18_nest_level_other.
 
 (* the constructor argument wins over the pragma; without it the pragma decides
    (default 1); pragma errors are raised either way *)
-Theorem C18_pragma_precedence : forall script arg p,
-  process_pragma (fst (process_embedded_query_expr script)) = Ok p ->
-  effective_level arg script = Ok (match arg with Some k => PLevel k | None => p end).
+Theorem C18_pragma_precedence : forall script arg l,
+  process_pragma (fst (process_embedded_query_expr script)) = Ok (PLevel l) ->
+  effective_level arg script = Ok (PLevel (match arg with Some k => k | None => l end)).
 Proof. exact pragma_precedence. Qed.
 Print Assumptions C18_pragma_precedence.
 
